@@ -559,6 +559,35 @@ mut('p15-yaml-elem-unchecked', ['C01'], ['P15'], [('values/convert.go',
 mut('p15-mapkey-oneway', ['C01'], ['P15'], [('values/value.go',
  '''	case it.ConvertibleTo(kt) && kt.ConvertibleTo(it):''',
  '''	case it.ConvertibleTo(kt):''')], 'the way back is no longer tested: a slice index converts to an array key type and not back')
+mut('f14-float32-bits', ['C16'], ['F14'], [('values/convert.go',
+ '''		case []byte:
+			return string(value), nil
+		case fmt.Stringer:''',
+ '''		case float32:
+			return strconv.FormatFloat(float64(value), 'g', -1, 64), nil
+		case []byte:
+			return string(value), nil
+		case fmt.Stringer:''')], 'a float32 argument of a string filter reads 0.10000000149011612 where printing gives 0.1')
+mut('p16-nil-to-interface', ['C01'], ['P16'], [('values/convert.go',
+ '''	switch typ.Kind() {
+	case reflect.Bool:
+		return !(value == nil || value == false), nil''',
+ '''	switch typ.Kind() {
+	case reflect.Interface:
+		if value == nil {
+			return nil, nil
+		}
+	case reflect.Bool:
+		return !(value == nil || value == false), nil''')], 'Convert succeeds with nil for a nil to an interface type: its callers append reflect.ValueOf(nil)')
+mut('x2-helper-default-too-wide', ['C09'], ['X2'], [('values/compare.go',
+ '''func isIntKind(k reflect.Kind) bool {
+	switch k {
+	case reflect.Int, reflect.Int8, reflect.Int16, reflect.Int32, reflect.Int64,
+		reflect.Uint, reflect.Uint8, reflect.Uint16, reflect.Uint32, reflect.Uint64:''',
+ '''func isIntKind(k reflect.Kind) bool {
+	switch k {
+	case reflect.Int, reflect.Int8, reflect.Int16, reflect.Int32, reflect.Int64,
+		reflect.Uint, reflect.Uint8, reflect.Uint32, reflect.Uint64:''')], 'uint16 is no longer an integer kind')
 out = '/verif/selftest/mutants'
 for d in os.listdir(out):
     if d.startswith('own-'):
